@@ -115,6 +115,60 @@ def cases(ctx):
             ins.append([m, codec.rand_values(rng, isa.TABLE[flav][m][1])])
         yield {"kind": "sequence", "flavour": flav, "version": [rng.randrange(256), rng.randrange(256)],
                "app_id": rng.randrange(65536), "instrs": ins}
+    # listings as a debug transpilation leaves them in memory: comments between the instructions (they take no bytes), branches to
+    # EVERY in-memory position - an instruction, a comment (= the instruction after it), the end
+    branches = {"jmp": 0, "bez": 1, "bnz": 1, "beq": 2, "bne": 2, "blt": 2, "bge": 2}
+    for _ in range(ctx.n(150, 60000)):
+        flav = rng.choice(["vanilla", "nv", "reids"])
+        names = sorted(isa.TABLE[flav])
+        n = rng.randrange(1, 12)
+        layout = [rng.random() < 0.4 for _ in range(n + rng.randrange(0, 8))]      # True = a comment at this in-memory position
+        ins = []
+        for is_comment in layout:
+            if is_comment:
+                continue
+            m = rng.choice(sorted(branches)) if rng.random() < 0.6 else rng.choice(names)
+            v = codec.rand_values(rng, isa.TABLE[flav][m][1])
+            if m in branches:
+                v[branches[m]] = rng.randrange(0, len(layout) + 1)
+            ins.append([m, v])
+        yield {"kind": "commented", "flavour": flav, "version": [rng.randrange(256), rng.randrange(256)],
+               "app_id": rng.randrange(65536), "instrs": ins, "layout": layout}
+
+
+def _commented(ctx, case):
+    from netqasm.lang.instr.base import DebugInstruction
+    from netqasm.lang.subroutine import Subroutine
+    flav = case["flavour"]
+    fobj = codec.flavour_obj(flav)
+    branches = {"jmp": 0, "bez": 1, "bnz": 1, "beq": 2, "bne": 2, "blt": 2, "bge": 2}
+    real = iter(case["instrs"])
+    mem = []
+    before = [0]            # before[t] = instructions (not comments) at in-memory positions < t
+    for is_comment in case["layout"]:
+        mem.append(DebugInstruction(text="c") if is_comment else codec.mk_instr(fobj, flav, *next(real)))
+        before.append(before[-1] + (0 if is_comment else 1))
+    if not any(case["layout"]):
+        before = list(range(len(case["layout"]) + 1))
+    want = []
+    for m, v in case["instrs"]:
+        v = list(v)
+        if m in branches:
+            v[branches[m]] = before[v[branches[m]]]
+        want.append([m, v])
+    sub = Subroutine(instructions=mem, arguments=[], netqasm_version=tuple(case["version"]), app_id=case["app_id"])
+    ctx.count("commented_listings_encoded")
+    ctx.count("branches_into_commented_listings", sum(1 for m, _ in case["instrs"] if m in branches))
+    ref = isa.encode_subroutine(flav, case["version"], case["app_id"], want)
+    for attempt in ("first", "second"):
+        raw = bytes(sub)
+        if raw != ref:
+            i = next((i for i in range(len(want)) if raw[4 + 7 * i:11 + 7 * i] != ref[4 + 7 * i:11 + 7 * i]), None)
+            ctx.fail(case, f"{flav}: listing with comments at in-memory positions {[i for i, c in enumerate(case['layout']) if c]} ({attempt} encoding): "
+                           + (f"instruction {i} {case['instrs'][i]} must be encoded as {want[i]}: repo {raw[4 + 7 * i:11 + 7 * i].hex()} "
+                              f"reference {ref[4 + 7 * i:11 + 7 * i].hex()}" if i is not None else f"{len(raw)} bytes, reference {len(ref)}"))
+            break
+    ctx.case(case, bool(case["instrs"]))
 
 
 def _threaded(ctx, case):
@@ -192,6 +246,8 @@ def run_case(ctx, case):
     from netqasm.lang.parsing import deserialize
     if case["kind"] == "threaded":
         return _threaded(ctx, case)
+    if case["kind"] == "commented":
+        return _commented(ctx, case)
     if case["kind"] == "template":
         return _template(ctx, case)
     flav = case["flavour"]
@@ -254,10 +310,17 @@ def run_case(ctx, case):
         if bytes(dec) != isa.encode_subroutine(flav, case["version"], app2, case["instrs"]):
             ctx.fail(case, f"{flav}: reference bytes decoded, addressed to app {app2} via instantiate and encoded again: the bytes start "
                            f"{bytes(dec)[:4].hex()}, the layout says {isa.encode_subroutine(flav, case['version'], app2, case['instrs'])[:4].hex()}")
+        else:
+            dec.instantiate(0, {})
+            if bytes(dec) != isa.encode_subroutine(flav, case["version"], 0, case["instrs"]):
+                ctx.fail(case, f"{flav}: reference bytes decoded, addressed to app {app2} and then to app 0 via instantiate: the bytes start "
+                               f"{bytes(dec)[:4].hex()}, the layout says {isa.encode_subroutine(flav, case['version'], 0, case['instrs'])[:4].hex()}")
     elif case["kind"] in ("header", "instr") or not case["instrs"]:
         # the same (pre-compiled) Subroutine object is encoded, addressed to another application (instantiate() / the app_id
         # setter), and encoded again: the header carries the application it is addressed to *now*
-        for how, app2 in (("instantiate", case["app_id"] ^ 0x0101), ("setter", case["app_id"] ^ 0x8002)):
+        # (application 0 is an application like any other: also re-addressed TO it from a non-zero one, both ways)
+        for how, app2 in (("instantiate", case["app_id"] ^ 0x0101), ("setter", case["app_id"] ^ 0x8002), ("instantiate", 0),
+                          ("setter", 0xFFFF), ("setter", 0), ("instantiate", 1)):
             if how == "instantiate":
                 sub.instantiate(app2, {})
             else:
